@@ -38,7 +38,9 @@ pub struct Viol {
 }
 impl Viol {
     pub fn new(prop: &str, key: impl Into<String>, msg: impl Into<String>) -> Viol {
-        Viol { prop: prop.to_string(), key: key.into(), msg: msg.into() }
+        // messages may quote text that n2 produced from unvalidated bytes
+        let clean = |s: String| String::from_utf8_lossy(s.as_bytes()).into_owned();
+        Viol { prop: prop.to_string(), key: clean(key.into()), msg: clean(msg.into()) }
     }
 }
 
